@@ -76,7 +76,8 @@ theorem feeHandover_ok {s s' : St} {b : BlockCtx} (h : feeHandover s b = .ok s')
     s'.ghost.withdrawn = s.ghost.withdrawn := by
   unfold feeHandover at h
   split at h
-  · split at h; · cases h
+  · dsimp only at h
+    split at h; · cases h
     rename_i a' ha'
     injection h with h; subst h
     cases hf : s.findAcct true b.proposer with
@@ -86,8 +87,8 @@ theorem feeHandover_ok {s s' : St} {b : BlockCtx} (h : feeHandover s b = .ok s')
       have hab := bal_le_sumBal s.accts.fin hf
       have hsb := sumBal_le_holdings hi
       have h255 := two255_lt
-      have e := addBalance_exact ha' (by have : ((a.bal + b.feeSum : Nat) : Int) < (two256 : Int) := by push_cast; omega
-                                        exact_mod_cast this)
+      have hlt' : ((a.bal + b.feeSum : Nat) : Int) < (two256 : Int) := by push_cast; omega
+      have e := addBalance_exact ha' (by exact_mod_cast hlt')
       subst e
       refine ⟨inv0_setAcct hi _, ⟨by simp, rfl, rfl, rfl, rfl, rfl⟩, rfl, ?_, rfl⟩
       rw [holdings_update hi hf (a' := { a with bal := a.bal + b.feeSum }) rfl]
@@ -97,8 +98,8 @@ theorem feeHandover_ok {s s' : St} {b : BlockCtx} (h : feeHandover s b = .ok s')
       rw [findAcct_true] at hf
       have hh0 : 0 ≤ holdings s := by have := sumBal_le_holdings hi; have := sumBal_nonneg s.accts.fin; omega
       have h255 := two255_lt
-      have e := addBalance_exact ha' (by have : ((0 + b.feeSum : Nat) : Int) < (two256 : Int) := by push_cast; omega
-                                        exact_mod_cast this)
+      have hlt' : ((0 + b.feeSum : Nat) : Int) < (two256 : Int) := by push_cast; omega
+      have e := addBalance_exact ha' (by exact_mod_cast hlt')
       subst e
       refine ⟨inv0_setAcct hi _, ⟨by simp, rfl, rfl, rfl, rfl, rfl⟩, rfl, ?_, rfl⟩
       rw [holdings_setAcct]
@@ -139,6 +140,7 @@ structure UnfOK (s s' : St) : Prop where
   feeBurn : s'.ghost.feeBurn = s.ghost.feeBurn
   withdrawn : s'.ghost.withdrawn = s.ghost.withdrawn
 
+set_option maxRecDepth 8000 in
 theorem unfreeze_step_ok {s s' : St} {height : Int} {k : String} {st : Stake}
     (h : unfreezeStep height (.ok s) (k, st) = .ok s') (hi : Inv0 s) (hb : holdings s < (two255 : Int))
     (hk : s.frozen.fin[k]? = some st) :
@@ -246,24 +248,48 @@ theorem unfreeze_ok {s s' : St} {height : Int} (h : unfreeze s height = .ok s') 
 
 /-! ### EndBlock -/
 
-theorem end_ok {s : St} (hinv : Inv .inBlock s) (hb : SupplyBound s) (hnp : (endBlock s).2.panic = "") :
+theorem endBlock_of_completes {s : St} {b : BlockCtx} {s1 s2 s3 s4 : St} {r : St × List ValUpdate}
+    (hb : s.blk = some b) (h1 : freezeProposals s b.height = .ok s1) (h2 : applyProposals s1 b.height = .ok s2)
+    (h3 : feeHandover s2 b = .ok s3) (h4 : unfreeze s3 b.height = .ok s4) (h5 : updateValidators s4 = .ok r) :
+    (endBlock s).1 = r.1 := by
+  unfold endBlock
+  simp only [hb, h1, h2, h3, h4, h5]
+
+theorem end_ok {s : St} (hinv : Inv .inBlock s) (hb : SupplyBound s) (hc : EndCompletes s) :
     Inv .ended (endBlock s).1 ∧
     holdings (endBlock s).1 + (((endBlock s).1.ghost.feeBurn : Int) - s.ghost.feeBurn) = total s ∧
     (endBlock s).1.ghost.withdrawn = s.ghost.withdrawn := by
   obtain ⟨hi, hblk, hsync, _⟩ := hinv
   have hsync := hsync (by decide)
-  cases hbk : s.blk with
-  | none => exact absurd hbk (hblk.2 (by decide))
-  | some b =>
+  obtain ⟨b, s1, s2, s3, s4, ⟨s5, ups⟩, hbk, h1, h2, h3, h4, h5⟩ := hc
+  rw [endBlock_of_completes hbk h1 h2 h3 h4 h5]
+  simp only
   have hlt : ((two63 * amountPerPower : Nat) : Int) < (two255 : Int) := by decide
   have hbt : total s < ((two63 * amountPerPower : Nat) : Int) := hb
   have hfeeS : feeInFlight s = (b.feeSum : Int) := by unfold feeInFlight; rw [hbk]; simp
-  unfold total at hbt
-  unfold endBlock at hnp ⊢
-  simp only [hbk] at hnp ⊢
-  cases h1 : freezeProposals s b.height with
-  | panic e => rw [h1] at hnp; simp only at hnp
-               sorry
-  | ok s1 => sorry
+  unfold total at hbt ⊢
+  have v1 := freezeProposals_valEq h1
+  have v2 := v1.trans (applyProposals_valEq h2)
+  have i2 := v2.inv0 hi
+  have hh2 : holdings s2 = holdings s := v2.holdings
+  obtain ⟨i3, f3, z3, hold3, w3⟩ := feeHandover_ok h3 i2 (by rw [hh2]; omega)
+  have sync3 : FrozenSync s3 := by unfold FrozenSync; rw [z3]; exact v2.sync hsync
+  have hfb : (0 : Int) ≤ (s3.ghost.feeBurn : Int) - s2.ghost.feeBurn := by
+    unfold feeHandover at h3
+    split at h3
+    · dsimp only at h3
+      split at h3; · cases h3
+      injection h3 with h3; subst h3; simp
+    · injection h3 with h3; subst h3; simp
+  have hb3 : holdings s3 < (two255 : Int) := by omega
+  have u4 := unfreeze_ok h4 i3 hb3 sync3
+  have v5 := updateValidators_valEq h5
+  have i5 := v5.inv0 u4.inv0
+  refine ⟨⟨i5, ⟨fun h => by cases h, fun _ => ?_⟩, fun h => absurd rfl h, fun h => by cases h⟩, ?_, ?_⟩
+  · rw [v5.blk, u4.blk, f3.blk]; simp only; rw [v2.blk, hbk]; simp
+  · rw [v5.holdings, u4.hold, v5.ghost, u4.feeBurn]
+    rw [v2.ghost] at hold3
+    omega
+  · rw [v5.ghost, u4.withdrawn, w3, v2.ghost]
 
 end Rigo.C02
